@@ -114,10 +114,16 @@ func runMirrorScript(id string, variant int, repl string, steps []mirrorStep, w 
 			case "Get":
 				gets++
 				var data []byte
-				data, err = Consume(m.Get(ctx, u.Digest(st.Objs[0], "")), variant/9)
+				if (variant/27)%2 == 1 {
+					// the same read through the composite path: the child is the whole parent
+					d := u.Digest(st.Objs[0], "")
+					data, err = Consume(m.GetFromComposite(ctx, d, d, identitySlicer{}), variant/9)
+				} else {
+					data, err = Consume(m.Get(ctx, u.Digest(st.Objs[0], "")), variant/9)
+				}
 				// the replica consulted first is the one that received the first call of this read
 				for _, c := range log.Snapshot()[mark:] {
-					if c.Op == "Get" {
+					if c.Op == "Get" || c.Op == "GetFromComposite" {
 						o["first"] = c.Backend
 						break
 					}
